@@ -1150,6 +1150,13 @@ class Interp:
                     if isinstance(base, Closure):
                         getattr(base, "fattrs", {}).pop(t.attr, None)       # del f.__wrapped__ and the like
                         continue
+                if isinstance(t, ast.Name) and pc is sp.true and t.id in frame.vars:
+                    del frame.vars[t.id]                                          # del of a local / loop variable
+                    continue
+                if isinstance(t, ast.Tuple) and pc is sp.true and all(isinstance(e, ast.Name) and e.id in frame.vars for e in t.elts):
+                    for e in t.elts:
+                        del frame.vars[e.id]
+                    continue
                 raise AnalysisError(f"unmodelled del {ast.unparse(t)}")
             return True
         if isinstance(st, ast.Continue):
